@@ -38,6 +38,52 @@ def monitor_ops(ctx, exe, ops, prop, want_sig):
     return False
 
 
+def after_reconnect(ctx, prop):
+    """sessions in which pool connections fail and are replaced (the session harness has no pool failures): the task
+    histories of the lifecycle harness — the real TCP handler with its scheduler, one contract task, failures and reconnects
+    of the active pool before and after the switch, late shares — compared with Model/Life.lean (on top of Model/Session.lean)
+    op by op.  A difference at a submit is a violation of C02 when it concerns the reply or where the share went, of C04 when
+    it concerns the task's credit."""
+    exe = L.build_harness(ctx, "tcphandlers")
+    if not exe:
+        return 0
+    rc, out = L.run_harness(ctx, exe, "TestVerifLifeRegular$", env={"VERIF_N": 150 if ctx.tier == "quick" else 3000}, timeout=1700)
+    full = ctx.out + "/lifereg.impl.txt"
+    if not os.path.exists(full):
+        ctx.tie_failures.append("lifecycle harness run failed (rc=%d): %s" % (rc, out[-300:]))
+        return 0
+    os.replace(full, full + ".full")
+    with open(full, "w") as f:
+        for l in open(full + ".full", errors="replace"):
+            if not l.startswith("< relay "):
+                f.write(l)
+    model = full + ".model.txt"
+    rc2, err = L.drv("model", "life", full, model)
+    if rc2 != 0:
+        ctx.tie_failures.append("driver model life failed: " + err[-200:])
+        return 0
+    n, done = 0, set()
+    for h, lines in L.parse_cases(full):
+        n += sum(1 for l in lines if l.startswith("> msubmit")) if any(l.startswith("> task") for l in lines) else 0
+    for d in L.diff_cases(full, model):
+        op = L.last_op_before(d["lines"], d["first"])
+        if not op.startswith("> msubmit") or "skipped-tail" in d["header"]:
+            continue
+        both = d["impl"] + " " + d["other"]
+        credit = "< cb " in both
+        routing = "tominer result" in both or " submit " in both
+        if (prop == "C04" and not credit) or (prop == "C02" and not routing) or prop not in ("C02", "C04"):
+            continue
+        sig = prop.lower() + ":after-reconnect-" + ("task-credit" if credit else "reply-or-forwarding")
+        if sig in done:
+            continue
+        done.add(sig)
+        ops = [l for l in d["lines"][:d["first"] + 1] if l.startswith("> ")]
+        L.violation(ctx, sig, "in a session with a contract task and replaced pool connections, after %s: implementation %r, model %r" % (op[2:], d["impl"][:160], d["other"][:160]),
+                    {"clause": sig, "case": d["header"], "ops": ops, "how_to_replay": "bin/check C06 --replay <this file>"})
+    return n
+
+
 def run_session_check(ctx, prop, n_quick=200, n_thorough=3000, maxops=30):
     ctx.trusted_base += [
         "session harness harness/proxy/verif_session_test.go + verif_sess_ops_test.go: a real Proxy (Connect+Run, SetDest) between a fake miner and fake pools over net.Pipe inside a synctest bubble (virtual time, quiescence after every event); the fakes speak raw JSON and share no code with the repository",
